@@ -581,6 +581,21 @@ func dictOpsFor(keys []K, others [][]int) []op {
 		st.m.e = nil
 		return expectErr(err, false, "Clear")
 	}})
+	// the collection as its own operand: nothing changes
+	ops = append(ops, op{"update(self)", func(st *state) string {
+		_, err := st.method("update", st.d)
+		return expectErr(err, false, "d.update(d)")
+	}})
+	ops = append(ops, op{"d|=self", func(st *state) string {
+		r, err := st.call("d_ior", st.d, st.d)
+		if err != nil {
+			return "d |= d: " + err.Error()
+		}
+		if nd, ok := r.(*starlark.Dict); ok {
+			st.d = nd
+		}
+		return ""
+	}})
 	for _, ids := range others {
 		ids := ids
 		ops = append(ops, op{fmt.Sprintf("update(dict%v=5)", ids), func(st *state) string {
